@@ -292,6 +292,7 @@ func (s *Server) aofshrink() {
 				log.Fatalf("shrink seek end fatal operation: %v", err)
 			}
 			s.aofsz = int(n)
+			s.aofgen++ // positions of the old file mean nothing in this one
 
 			os.Remove(s.opts.AppendFileName + "-bak") // ignore error
 
